@@ -42,9 +42,13 @@ package clos
 // make-instance / shared-initialize: a slot that was filled from a supplied
 // initarg (or from a default initarg) is not overwritten by an initform.
 //@ func clos.(defaultSharedInitializeCaller).Call
-//@   property C12
+//@   property C12 C09
 //@   on-call Eval#2 initform-only-for-unfilled-slot: !has(nameMap, k)
 //@   on-call Eval#1 default-only-for-unfilled-slot: !has(nameMap, sd.name)
+// C09 / C12: what is evaluated is a form that is there: an initform or a default initarg of nil is the
+// value nil (the evaluation is a method call on the form; on nil it is a fault of the host)
+//@   on-call Eval#2 initform-is-there: sd.initform != nil
+//@   on-call Eval#1 default-is-there: v != nil
 
 // ---------------------------------------------------------------------------
 // C17: re-asserting synchronization on an instance that is synchronized
